@@ -341,7 +341,7 @@ func TestCheck(t *testing.T) {
 		c.SetExhaustive("small_ranges_exhaustive", true)
 
 		// rapid: up to 8x natural, any margin 0..20
-		c.Rapid("random", c.N(1500, 12000), func(t *rapid.T) {
+		c.Rapid("random", c.N(1500, 60000), func(t *rapid.T) {
 			w := rapid.SampledFrom(writers).Draw(t, "writer")
 			rng := hx.NewRng(rapid.Uint64().Draw(t, "content"))
 			cs := Case{Writer: w, Content: contentFor(w, rng), Margin: -1}
